@@ -488,10 +488,25 @@ func TestVerifC13(t *testing.T) {
 			}
 		}
 	}
+	runTimeouts := func(vs []int) {
+		oks, details := vC13RunTimeouts(vs)
+		for i, v := range vs {
+			idx := k.record(vL(vZ(6), vI(v)), vL(vZ(0), vBool(oks[i])), true)
+			k.count("family", "handshake-timeouts")
+			if !oks[i] {
+				k.fail(idx, 3, "after-handshake-timeout", "", fmt.Sprintf("variant %d: %s", v, details[i]))
+			}
+		}
+	}
 	if k.replay != nil {
+		if k.replay.isList() && len(k.replay.l) == 2 && k.replay.l[0].int() == 6 {
+			runTimeouts([]int{k.replay.l[1].int()})
+			return
+		}
 		runOne(*k.replay)
 		return
 	}
+	runTimeouts([]int{0, 1, 2, 3, 4, 5})
 	for _, c := range k.corpus() {
 		runOne(c)
 	}
